@@ -1603,7 +1603,7 @@ func checkKeyAgreement(r *Report, p *Prog) {
 		}
 		a := NewAnalysis(p)
 		rg := NewRegion(p, fn, 2)
-		var puts, gets, deletes []RI
+		var puts, gets, deletes, updates []RI
 		nUpdates := 0
 		rg.Each(func(x RI) {
 			xfc := rg.Ctx(a, x.C)
@@ -1615,6 +1615,7 @@ func checkKeyAgreement(r *Report, p *Prog) {
 			case *ssa.MapUpdate:
 				if strings.HasSuffix(xfc.AP(y.Map), "Server.serviceProviders") {
 					nUpdates++
+					updates = append(updates, x)
 				}
 			case *ssa.Call:
 				if bi, ok := y.Call.Value.(*ssa.Builtin); ok && bi.Name() == "delete" && len(y.Call.Args) == 2 && strings.HasSuffix(xfc.AP(y.Call.Args[0]), "Server.serviceProviders") {
@@ -1641,6 +1642,33 @@ func checkKeyAgreement(r *Report, p *Prog) {
 				return arg
 			}
 			return f + "(" + arg + ")"
+		}
+		// a record that was stored is registered: the registry update depends on nothing but what the Store.Put before it
+		// depended on, and that Put's own success (a registration that is skipped when the entity ID is already present
+		// leaves the old endpoints and certificate in force until restart, while a restarted server loads the new ones)
+		for _, up := range updates {
+			ufc := rg.Ctx(a, up.C)
+			ufc.ensureConds()
+			ucond := ufc.AbsCond(up.I.Block())
+			for _, put := range puts {
+				if !rg.Before(put, up) {
+					continue
+				}
+				pfc := rg.Ctx(a, put.C)
+				pfc.ensureConds()
+				known := map[string]bool{}
+				for _, nm := range a.B.Support(pfc.AbsCond(put.I.Block())) {
+					known[nm] = true
+				}
+				var foreign []string
+				for _, nm := range a.B.Support(ucond) {
+					if !known[nm] && !strings.Contains(nm, "Put#") {
+						foreign = append(foreign, nm)
+					}
+				}
+				sort.Strings(foreign)
+				r.Check(len(foreign) == 0, rule, fmt.Sprintf("%s: a stored service is registered whatever the registry held", p.FnName(fn)), p.InstrPos(up.I), "the registry update follows the successful Store.Put under no further condition", "the record is stored, but it is entered in the registry only under "+strings.Join(foreign, ", ")+": when the update is skipped the running server keeps answering with the endpoints and certificate registered before, and a server restarted over the same store with the new ones")
+			}
 		}
 		for _, put := range puts {
 			okF := false
